@@ -10,7 +10,11 @@ Inductive c12case :=
 | CVstr (n : N) (s : string)
 | CHandle (msize : N) (s : string) (is_rversion : bool) (rmsize : N) (rver : string) (cs_msize cs_version : N)
 | CWire (msize : N) (s : string) (rtype : N) (rmsize : N) (rver : string)
-| CClient (req : N) (script : list vreply) (result : nc_result) (sent : list (N * string)) (later : list (N * N * N)).
+| CClient (req : N) (script : list vreply) (result : nc_result) (sent : list (N * string)) (later : list (N * N * N))
+(* several Tversion on ONE connState: requests, replies, (messageSize, version) after each *)
+| CSession (reqs : list (N * string)) (replies : list (N * string)) (states : list (N * N))
+(* several Tversion frames on ONE connection through Server.Handle: requests, replies received before the connection ended *)
+| CWireSession (reqs : list (N * string)) (replies : list (N * string)).
 
 Definition result_eqb (a b : nc_result) : bool :=
   match a, b with
@@ -24,6 +28,19 @@ Fixpoint sent_eqb (a b : list (N * string)) : bool :=
   match a, b with
   | [], [] => true
   | (m, s) :: a', (m', s') :: b' => (m =? m') && String.eqb s s' && sent_eqb a' b'
+  | _, _ => false
+  end.
+
+Fixpoint session_states (st : cstate) (reqs : list (N * string)) : list (N * N) :=
+  match reqs with
+  | [] => []
+  | q :: rest => let st1 := fst (session_step st q) in (cs_msize st1, cs_version st1) :: session_states st1 rest
+  end.
+
+Fixpoint pairs_eqb (a b : list (N * N)) : bool :=
+  match a, b with
+  | [], [] => true
+  | (x, y) :: a', (x', y') :: b' => (x =? x') && (y =? y') && pairs_eqb a' b'
   | _, _ => false
   end.
 
@@ -49,6 +66,9 @@ Definition agrees (c : c12case) : bool :=
       let eff := if req =? 0 then p9_DefaultMessageSize else req in
       let '(s, r) := new_client_top eff script in
       result_eqb r result && sent_eqb s sent
+  | CSession reqs replies states =>
+      sent_eqb (snd (session_run cstate0 reqs)) replies && pairs_eqb (session_states cstate0 reqs) states
+  | CWireSession reqs replies => sent_eqb (wire_session cstate0 reqs) replies
   end.
 
 Fixpoint last_rversion (script : list vreply) : option N :=
@@ -56,6 +76,35 @@ Fixpoint last_rversion (script : list vreply) : option N :=
   | [] => None
   | VRversion m _ :: _ => Some m
   | _ :: r => last_rversion r
+  end.
+
+(** the reply that ended NewClient's loop: the first one that is not Rlerror(EAGAIN) *)
+Fixpoint terminal (script : list vreply) : option vreply :=
+  match script with
+  | [] => None
+  | VErr e :: r => if e =? linux_EAGAIN then terminal r else Some (VErr e)
+  | x :: _ => Some x
+  end.
+
+(** C12's client clauses read directly on what NewClient did: a client exists only after an
+    Rversion spelling a 9P2000.L version, it uses that version and no more than the announced
+    msize, and everything it sent afterwards fits *)
+Definition client_clause (eff : N) (script : list vreply) (result : nc_result) (later : list (N * N * N)) : bool :=
+  match result with
+  | NCOk v m _ =>
+      match terminal script with
+      | Some (VRversion announced rv) =>
+          match parse_version rv with
+          | Some (V9P2000L, v') =>
+              (v =? v') && (m <=? announced) && (m <=? eff) &&
+              forallb (fun '(ty, size, cnt) =>
+                         if ty =? p9_msgTwrite then size <=? announced
+                         else (size <=? announced) && (11 + cnt <=? announced)) later
+          | _ => false                     (* proceeded although the reply is not a .L version *)
+          end
+      | _ => false                         (* proceeded without an Rversion *)
+      end
+  | _ => true
   end.
 
 (** the property itself, evaluated on the observed behaviour only *)
@@ -67,15 +116,11 @@ Definition property_holds (c : c12case) : bool :=
   | CWire _ _ rt _ _ => (rt =? p9_msgRversion) && agrees c
   | CParse _ _ _ _ | CVstr _ _ => agrees c
   | CClient req script result _ later =>
-      match result, last_rversion script with
-      | NCOk _ m _, Some announced =>
-          (m <=? announced) &&
-          forallb (fun '(ty, size, cnt) =>
-                     if ty =? p9_msgTwrite then size <=? announced
-                     else (size <=? announced) && (11 + cnt <=? announced)) later
-      | NCOk _ _ _, None => false
-      | _, _ => true
-      end
+      client_clause (if req =? 0 then p9_DefaultMessageSize else req) script result later
+  (* every Tversion of a session gets its Rversion, and the state after each accepted one is what that reply announced *)
+  | CSession reqs replies states =>
+      Nat.eqb (List.length replies) (List.length reqs) && agrees c
+  | CWireSession _ _ => agrees c
   | _ => true
   end.
 
